@@ -119,7 +119,10 @@ MonStep(mm, e) ==
                \o SetToSeq({[sock |-> e.net[i].to, t |-> t, i |-> i] : i \in {i \in NewNet(e) : e.net[i].kind = "rand" /\ Kind(e) # "AppRequest"}})
       \* challenges of the node: emitted now; answered (accepted) / rejected (ambiguous, timer possibly re-armed) / expired
       ways1 == mm.ways \o SetToSeq({[id |-> e.net[i].id, sock |-> e.net[i].to, idn |-> e.net[i].idn, t |-> t, arm |-> t, amb |-> FALSE, dip |-> FALSE] : i \in {i \in NewNet(e) : e.net[i].kind = "way"}})
-      hsIn == Kind(e) \in {"PeerHandshake", "Replay", "Mutate"} /\ ~Unres(e)
+      \* what is presented to the node in this step is (a copy / a tampered copy of) a handshake
+      origKind == IF Kind(e) \in {"Replay", "Mutate"} /\ In(e).idx \in 1..Len(mm.injs) /\ mm.injs[In(e).idx].orig \in 1..Len(mm.injs)
+                  THEN mm.injs[mm.injs[In(e).idx].orig].k ELSE Kind(e)
+      hsIn == origKind = "PeerHandshake" /\ ~Unres(e)
       ways2a == [i \in 1..Len(ways1) |->
                   IF hsIn /\ In(e).from = ways1[i].sock /\ ways1[i].t < t THEN [ways1[i] EXCEPT !.amb = TRUE, !.arm = t] ELSE ways1[i]]
       \* while it is uncertain whether a challenge is still outstanding, remember whether its exemption was seen missing
